@@ -20,6 +20,10 @@
                                      ('delay', s, ('ok',)) = start reading after s seconds; default ('ok',)
                                      With push_on_probe=True the bytes are withheld until the harness calls
                                      push_now() (it does so when the peer starts probing for unsolicited data).
+                                     ('raw-below-tls', b'..' | None) (needs bio_tls=True, encrypted connection): the
+                                     bytes go on the wire BELOW the TLS layer (part of a record, garbage, or -- None --
+                                     one complete non-application record: a TLS 1.3 post-handshake CertificateRequest).
+  bio_tls=True                       the next hop does its TLS with ssl.MemoryBIO/SSLObject on the raw socket (BioTlsSocket)
   tls_immediately=True               the connection starts with a TLS handshake (SMTPS-style next hop)
   small_buffers=N                    SO_SNDBUF of the relay's end of the socketpair is set to N bytes, so that a
                                      message of a few hundred KB does not fit into the kernel buffers
@@ -33,6 +37,135 @@ so lets the TLS layer answer the peer's close_notify).
 import gevent
 
 from vf.downstream import Downstream
+
+
+class BioTlsSocket(object):
+    """Server side of a TLS connection done with ssl.MemoryBIO / SSLObject on top of the RAW gevent socket, so that the
+    scripted next hop keeps access to the transport below the TLS layer: `raw` (send bytes that are no record, or
+    only part of one) and post_handshake_record() -- a complete, valid, NON-application record (the TLS 1.3
+    post-handshake CertificateRequest; records cannot be withheld and sent later, their sequence numbers are part of
+    the protection, so it is produced when wanted).  Offers what vf.downstream.Downstream needs of a socket:
+    makefile('rwb') -> readline/read/write/flush/close, close()."""
+
+    def __init__(self, raw, context):
+        import ssl as _ssl
+        self._ssl = _ssl
+        self.raw = raw
+        self.inc = _ssl.MemoryBIO()
+        self.out = _ssl.MemoryBIO()
+        self.obj = context.wrap_bio(self.inc, self.out, server_side=True)
+        self.buf = b''
+        self.eof = False
+        self.mute = False                  # once set, nothing the TLS layer produces reaches the wire any more
+        while True:
+            try:
+                self.obj.do_handshake()
+                break
+            except _ssl.SSLWantReadError:
+                self._flush()
+                if not self._fill():
+                    raise _ssl.SSLError('EOF during handshake')
+        self._flush()                      # (session tickets)
+
+    def post_handshake_record(self):
+        """Bytes of ONE complete non-application record for this connection, or b'' if that is not possible (needs
+        TLS 1.3, a server context with verify_mode CERT_OPTIONAL and a client that offered post_handshake_auth).
+        OpenSSL emits the request together with the next application write; only the first record is returned and
+        the rest is dropped -- nothing may be sent on this connection afterwards (the next hop goes silent)."""
+        try:
+            if self.obj.version() != 'TLSv1.3':
+                return b''
+            self.obj.verify_client_post_handshake()
+            self.mute = True               # (the peer's answer would make OpenSSL issue new session tickets)
+            self.obj.write(b'x')
+            data = self.out.read()
+        except (self._ssl.SSLError, ValueError, OSError):
+            return b''
+        if len(data) < 5:
+            return b''
+        n = int.from_bytes(data[3:5], 'big')
+        rest = data[5 + n:]
+        return data[:5 + n] if len(rest) >= 5 else b''      # (two records expected: the request, then the 'x')
+
+    def _flush(self):
+        data = self.out.read()
+        if data and not self.mute:
+            self.raw.sendall(data)
+
+    def _fill(self):
+        d = self.raw.recv(16384)
+        if not d:
+            self.inc.write_eof()
+            return False
+        self.inc.write(d)
+        return True
+
+    def recv(self, n=4096):
+        while not self.eof:
+            try:
+                d = self.obj.read(n)
+                self._flush()
+                if not d:
+                    self.eof = True
+                return d
+            except self._ssl.SSLWantReadError:
+                self._flush()
+                if not self._fill():
+                    self.eof = True
+            except (self._ssl.SSLZeroReturnError, self._ssl.SSLEOFError):
+                self.eof = True
+        return b''
+
+    def sendall(self, data):
+        self.obj.write(data)
+        self._flush()
+
+    def fileno(self):
+        return self.raw.fileno()
+
+    def makefile(self, mode='rwb'):
+        return _BioFile(self)
+
+    def close(self):
+        try:
+            self.raw.close()
+        except Exception:
+            pass
+
+
+class _BioFile(object):
+    def __init__(self, sock):
+        self.s = sock
+        self.w = []
+
+    def readline(self):
+        s = self.s
+        while b'\n' not in s.buf:
+            d = s.recv(4096)
+            if not d:
+                line, s.buf = s.buf, b''
+                return line
+            s.buf += d
+        line, _, s.buf = s.buf.partition(b'\n')
+        return line + b'\n'
+
+    def read(self, n=1):
+        s = self.s
+        if not s.buf:
+            s.buf = s.recv(4096)
+        d, s.buf = s.buf[:n], s.buf[n:]
+        return d
+
+    def write(self, data):
+        self.w.append(bytes(data))
+
+    def flush(self):
+        if self.w:
+            data, self.w = b''.join(self.w), []
+            self.s.sendall(data)
+
+    def close(self):
+        pass
 
 
 class _StallingContext(object):
@@ -55,14 +188,20 @@ class _StallingContext(object):
             except (OSError, IOError):
                 pass
             raise EOFError()
+        if self.ds.bio_tls:
+            bs = BioTlsSocket(sock, self.real)
+            self.ds._tls_socks[len(self.ds.conns) - 1] = bs
+            return bs
         return self.real.wrap_socket(sock, server_side=server_side)
 
 
 class Downstream14(Downstream):
 
     def __init__(self, script=None, tls_immediately=False, tls_context=None, deaf=False, small_buffers=None,
-                 lenient_data=False, **kw):
+                 lenient_data=False, bio_tls=False, **kw):
         self.deaf = deaf
+        self.bio_tls = bio_tls
+        self._tls_socks = {}
         self.small_buffers = small_buffers
         self.lenient_data = lenient_data
         self._real_tls = tls_context
@@ -76,6 +215,7 @@ class Downstream14(Downstream):
         self.trickled = 0
         self._forced = None
         self.push_on_probe = False
+        self.below_tls_bytes = None
         self._pending_push = {}
 
     def creator(self, address=None):
@@ -160,13 +300,31 @@ class Downstream14(Downstream):
         if extra:
             # what the next hop does, unasked, after answering the end of data / the EHLO or LHLO
             a2 = Downstream.action(self, ctx, extra)
+            if a2[0] == 'raw-below-tls':
+                # bytes written BELOW the TLS layer of an encrypted connection (bio_tls=True), then silence:
+                # a2[1] = the bytes, or None for the withheld post-handshake records (TLS 1.3 session tickets)
+                bs = self._tls_socks.get(ctx['conn'])
+                data = (a2[1] if a2[1] is not None else bs.post_handshake_record()) if bs is not None else b''
+                if data:
+                    from gevent.event import Event
+                    ev = Event()
+                    self.below_tls_bytes = data
+                    self._pending_push[ctx['conn']] = (data, ev, bs.raw)
+                    if not self.push_on_probe:
+                        self.push_now()
+                    ev.wait()
+                    self.pushed_after_drain = True
+                    self._begin_stall(extra, 'raw-below-tls')
+                    self._silent(f)
+                else:
+                    self.stall_log.append((extra, 'raw-below-tls-not-possible'))
             if a2[0] == 'raw-stall':
                 if self.push_on_probe and not self.conns[ctx['conn']].tls:
                     # the harness puts the bytes on the wire itself (push_now) at the instant the peer starts to
                     # look for unsolicited data -- by then it has consumed the reply just sent
                     from gevent.event import Event
                     ev = Event()
-                    self._pending_push[ctx['conn']] = (a2[1], ev)
+                    self._pending_push[ctx['conn']] = (a2[1], ev, self._socks[ctx['conn']])
                     ev.wait()
                     self.pushed_after_drain = True
                 else:
@@ -181,10 +339,10 @@ class Downstream14(Downstream):
     def push_now(self):
         """Called by the harness from the peer's greenlet: write every withheld unsolicited fragment now."""
         pushed = False
-        for conn, (data, ev) in list(self._pending_push.items()):
+        for conn, (data, ev, sock) in list(self._pending_push.items()):
             del self._pending_push[conn]
             try:
-                self._socks[conn].sendall(data)
+                sock.sendall(data)
                 pushed = True
             except (OSError, IOError):
                 pass
